@@ -15,6 +15,10 @@ use std::mem;
 use std::num::NonZeroUsize;
 use std::sync::Mutex;
 
+#[cfg(kani)]
+#[path = "/verif/kani/h_external.rs"]
+mod verif_kani;
+
 /// A variant of the standard regret infoset that caches the last selected external sampled strat
 #[derive(Debug)]
 struct CachedInfoset {
